@@ -11,6 +11,7 @@ import (
 
 	"github.com/cnotch/ipchub/av/codec"
 	"github.com/cnotch/ipchub/av/format/amf"
+	"github.com/cnotch/ipchub/utils/verifhook"
 	"github.com/cnotch/queue"
 	"github.com/cnotch/xlog"
 )
@@ -112,7 +113,9 @@ func (muxer *Muxer) process() {
 	var packSequenceHeader bool
 
 	for !muxer.closed {
+		verifhook.Point("worker.pop", 2)
 		f := muxer.recvQueue.Pop()
+		verifhook.Point("worker.got", 2)
 		if f == nil {
 			if !muxer.closed {
 				muxer.logger.Warn("flvmuxer:receive nil frame")
